@@ -189,6 +189,41 @@ def config_runs(res, rng):
                 fail(res, f'{nm}: beta differs from E[g]/sd[g] after globalConfig.atol / rtol were changed', case, {'beta': float(b), 'exact': exact})
 
 
+def quadrature_history(res, rng):
+    """the documented parameters quadDeg / quadRange belong to ONE call: FORM calls with other quadrature settings (on an unrelated problem)
+    must not change what a later default call returns — the exact index of a correlated linear-Gaussian problem"""
+    core.import_impl()
+    from scipy import stats
+    from ffpack import rrm
+    other = [stats.norm(0.0, 1.0), stats.lognorm(0.3, scale=2.0)]
+    og = lambda X: 5.0 - X[0] - X[1]
+    odg = [lambda X: -1.0, lambda X: -1.0]
+    # the later call uses the SAME degree with the default range 8 (a degree not used before in this process is the sharper case: whatever
+    # was set up for the first call would be found again)
+    for rho, (deg, ran) in ((0.6, (99, 4)), (-0.45, (64, 2.5)), (0.3, (80, 3)), (0.75, (50, 2.5))):
+        c = [1.0, -2.0]
+        mus, sig = [4.0, 1.0], [1.0, 0.5]
+        R = [[1.0, rho], [rho, 1.0]]
+        var = (c[0] * sig[0]) ** 2 + (c[1] * sig[1]) ** 2 + 2 * rho * c[0] * sig[0] * c[1] * sig[1]
+        exact = (c[0] * mus[0] + c[1] * mus[1]) / math.sqrt(var)
+        g = lambda X: c[0] * X[0] + c[1] * X[1]
+        dg = [lambda X: c[0], lambda X: c[1]]
+        dists = [stats.norm(m, s_) for m, s_ in zip(mus, sig)]
+        case = {'c': c, 'mus': mus, 'sigmas': sig, 'rho': rho, 'earlier_call': {'quadDeg': deg, 'quadRange': ran}, 'exact_beta': exact}
+        res.evaluations += 1
+        res.stat('form_after_other_quadrature_settings')
+        try:
+            rrm.hlrfFORM(2, og, odg, other, [[1.0, 0.4], [0.4, 1.0]], quadDeg=deg, quadRange=ran)
+            rrm.coptFORM(2, og, other, [[1.0, 0.4], [0.4, 1.0]], quadDeg=deg, quadRange=ran)
+            outs = {'hlrf': rrm.hlrfFORM(2, g, dg, dists, R, quadDeg=deg, quadRange=8)[0], 'copt': rrm.coptFORM(2, g, dists, R, quadDeg=deg, quadRange=8)[0]}
+        except Exception as e:  # noqa
+            fail(res, 'FORM raised on a linear-Gaussian problem after calls with other quadrature settings', case, repr(e)[:200])
+            continue
+        for nm, b in outs.items():
+            if abs(b - exact) > (1e-6 if nm == 'hlrf' else 2e-5) * (1 + abs(exact)):
+                fail(res, f'{nm}: beta differs from E[g]/sd[g] after earlier calls with other quadDeg / quadRange', case, {'beta': float(b), 'exact': exact})
+
+
 def recorded_limits(res):
     """two recorded limitations: (a) the Nataf quadrature at |rho| >= 0.98 makes FORM inexact on linear-Gaussian problems;
     (b) the numerical gradient uses an absolute step 1e-6, below the float spacing of Pa-sized variables"""
@@ -235,6 +270,7 @@ def run(tier, seed):
     explore(res, random.Random(seed), n)
     recorded_limits(res)
     config_runs(res, random.Random(seed + 3))
+    quadrature_history(res, random.Random(seed + 5))
     res.traces = res.evaluations
     # executable Lean model of the HL-RF loop / mvalFOSM (Model/Form.lean) against the implementation, iterate by iterate
     formmodel.form_stream(res, random.Random(seed + 7), 40 if tier == 'quick' else 1500)
